@@ -241,7 +241,16 @@ class Driver:
             part = lines[i:i + chunk]
             p = subprocess.run([self.path], input=("\n".join(part) + "\n").encode(), stdout=subprocess.PIPE, stderr=subprocess.PIPE, timeout=3600)
             if p.returncode != 0:
-                raise RuntimeError("driver failed: " + p.stderr.decode()[-300:])
+                # find the request the driver dies on (bisection): an infrastructure failure should name its input
+                lo, hi = 0, len(part)
+                while hi - lo > 1:
+                    mid = (lo + hi) // 2
+                    q = subprocess.run([self.path], input=("\n".join(part[lo:mid]) + "\n").encode(), stdout=subprocess.PIPE, stderr=subprocess.PIPE, timeout=3600)
+                    if q.returncode != 0:
+                        hi = mid
+                    else:
+                        lo = mid
+                raise RuntimeError("driver failed (exit %s) %s on request: %s" % (p.returncode, p.stderr.decode()[-300:], part[lo][:2000]))
             ans = p.stdout.decode().split("\n")
             if ans and ans[-1] == "":
                 ans.pop()
